@@ -599,7 +599,77 @@ def probe_monotone(ctx, impl):
         ctx.extra["reference_integral_non_monotone_examples"] = nonmono[:3]
 
 
+def probe_dtypes(ctx, impl):
+    """Integer-typed and list-typed inputs next to floats: density(r) for Python / NumPy ints, lists, tuples and
+    integer arrays must be the reference value (a float), equal to the value for the same radius given as a float,
+    scalar == array entry for every dtype; slant_depth with int / list / tuple endpoints and directions must equal the
+    float-array call exactly (same numbers, same arithmetic)."""
+    rng = ctx.rng
+    for model in MODELS:
+        obj = impl[model]
+        R, shells = REF[model]
+        ints = [0, 1, 1000, int(R) - 1000, int(R) - 1, int(R), int(R) + 5, 3480000, 6346600, 5701000, 1221500, -7]
+        ints += [int(s[0]) for s in shells if float(int(s[0])) == s[0]] + [rng.randrange(0, int(R)) for _ in range(ctx.n(6, 60))]
+        forms = {"python int": lambda r: r, "np.int64": lambda r: np.int64(r), "np.int32": lambda r: np.int32(r),
+                 "np.float32 (exactly representable)": None}
+        with np.errstate(all="ignore"):
+            arr_forms = {"list of int": list(ints), "tuple of int": tuple(ints), "int64 array": np.array(ints, dtype=np.int64),
+                         "int32 array": np.array(ints, dtype=np.int32), "object-free mixed list": [ints[0], float(ints[1])] + [float(x) if i % 2 else x for i, x in enumerate(ints[2:])],
+                         "2-d int array": np.array(ints, dtype=np.int64).reshape(-1, 1)}
+            arrs = {}
+            for name, a in arr_forms.items():
+                try:
+                    arrs[name] = np.asarray(obj.density(a)).reshape(-1)
+                except Exception as e:
+                    ctx.fail("density-dtype-raises:%s:%s" % (model, name), "%s.density(%s) raises %r" % (model, name, e), {"kind": "density", "model": model, "r": ints[2], "form": name})
+            for i, r in enumerate(ints):
+                want = ref_density(model, float(r))
+                f = float(obj.density(float(r)))
+                ctx.case(key=("density-dtype", model, r))
+                for name, conv in forms.items():
+                    if conv is None:
+                        continue
+                    try:
+                        v = obj.density(conv(r))
+                        v = float(v)
+                    except Exception as e:
+                        ctx.fail("density-dtype-raises:%s:%s:%r" % (model, name, r), "%s.density(%s %r) raises %r" % (model, name, r, e), {"kind": "density", "model": model, "r": r, "form": name})
+                        continue
+                    if not (close(v, want, 1e-12, 1e-12) and v == f):
+                        ctx.fail("density-dtype:%s:%s:%r" % (model, name, r), "%s.density(%r given as %s) = %r but the reference profile gives %r (density(%r) as a float = %r)" % (
+                            model, r, name, v, want, float(r), f), {"kind": "density", "model": model, "r": r, "form": name})
+                for name, a in arrs.items():
+                    if len(a) != len(ints) or not (float(a[i]) == f and close(float(a[i]), want, 1e-12, 1e-12)):
+                        ctx.fail("density-dtype:%s:%s:%r" % (model, name, r), "%s.density(%s)[%d] for radius %r = %r but the scalar float call gives %r (reference %r)" % (
+                            model, name, i, r, float(a[i]) if len(a) == len(ints) else None, f, want), {"kind": "density", "model": model, "r": r, "form": name})
+        # slant_depth: integer / list / tuple endpoints and directions
+        for _ in range(ctx.n(6, 80)):
+            p = (rng.choice([0, 120, -3400, 5000]), rng.choice([0, -250, 700]), -rng.choice([0, 1, 100, 1000, 2999, 3000]))
+            d = rng.choice([(0, 0, 1), (0, 0, -1), (1, 0, 0), (1, 1, -1), (3, -4, 0), (2, 0, -1), (0, -1, 1)])
+            step = rng.choice([500, 250, 1000])
+            try:
+                base = slant(ctx, impl, model, tuple(float(x) for x in p), tuple(float(x) for x in d), float(step))
+            except ImplFailure:
+                continue
+            variants = {"tuples of int": (tuple(p), tuple(d), step), "lists of int": (list(p), list(d), step),
+                        "int64 arrays": (np.array(p, dtype=np.int64), np.array(d, dtype=np.int64), step),
+                        "int endpoint, float direction": (list(p), [float(x) for x in d], float(step)),
+                        "float endpoint, int direction, int step": (np.array(p, dtype=float), tuple(d), int(step))}
+            for name, (pp_, dd_, st_) in variants.items():
+                ctx.case(key=("slant-dtype", model, p, d, step, name))
+                try:
+                    v = float(guarded(lambda: obj.slant_depth(pp_, dd_, st_)))
+                except ImplFailure as e:
+                    ctx.fail("slant-dtype-raises:%s:%s:%r:%r" % (model, name, p, d), "%s.slant_depth(%r, %r, %r) given as %s: %s" % (model, p, d, step, name, e),
+                             {"kind": "chord", "model": model, "endpoint": list(p), "direction": list(d), "step": step, "form": name})
+                    continue
+                if v != base:
+                    ctx.fail("slant-dtype:%s:%s:%r:%r:%r" % (model, name, p, d, step), "%s.slant_depth(endpoint=%r, direction=%r, step=%r) = %r when given as %s but %r when given as float arrays" % (
+                        model, p, d, step, v, name, base), {"kind": "chord", "model": model, "endpoint": list(p), "direction": list(d), "step": step, "form": name})
+
+
 def probes(ctx, impl):
+    probe_dtypes(ctx, impl)
     probe_density(ctx, impl)
     probe_chords(ctx, impl)
     probe_invariance(ctx, impl)
